@@ -90,6 +90,25 @@ def run(R):
         check_forwarding(c, repo)
 
 
+def match_returned_at_once(c, f, dn, v, calls, what, tag):
+    """*dn* assigns the outcome of a search to the local *v*.  Assuming v is not None (a match; 0 is a match), no feasible path from
+    there reaches a call named in *calls* or leaves the function other than by `return v`; assuming v is None, no path returns it.
+    Feasibility is decided by the tests on v passed on the way -- so `if idx is not None: return idx`, `while idx is None:` ... `return idx`
+    and `if idx is None: continue` are all the same to this rule, and `if idx:` (index 0 taken for "no match") is not."""
+    g = f.cfg
+    live = g.live_nodes()
+    rets = [n for n in g.nodes if n in live and n.kind == 'stmt' and isinstance(n.ast, ast.Return) and is_name(n.ast.value, v)]
+    bad = set(n for n in g.nodes if n in live and n is not dn and n.ast is not None and any(callee_last(k) in calls for k in node_calls(n)))
+    redefs = set(n for n in g.nodes if n in live and n is not dn and n.kind == 'stmt' and v in assigned_names(n.ast))
+    others = set(n for n in g.nodes if n in live and n.kind == 'stmt' and isinstance(n.ast, (ast.Return, ast.Raise)) and n not in rets)
+    goal = (bad | others | redefs | {g.exit}) - set(rets)
+    p = g.path(dn, goal, avoid=set(rets), skip_labels=('exc',), include_start=False, assume=[('%s is None' % v, False, {v})])
+    c.check(bool(rets) and p is None, f, dn.ast, what,
+            witness=('with %s holding a match, control can go: ' % v + g.describe_path(p)) if p else ('no `return %s`' % v if not rets else None), kind='path', tag=tag)
+    p2 = g.path(dn, set(rets), avoid=redefs, skip_labels=('exc',), include_start=False, assume=[('%s is None' % v, True, {v})]) if rets else None
+    c.check(p2 is None, f, dn.ast, 'the "no match" value None is never returned as an index', witness=g.describe_path(p2) if p2 else None, kind='path', tag=tag + ':none')
+
+
 def check_routing(c, repo):
     f = repo.func('expect:Expecter.expect_loop')
     tries = [n for n in iter_nodes(f.node) if isinstance(n, ast.Try)]
@@ -143,19 +162,8 @@ def check_routing(c, repo):
     nd = cfg_nodes_with_call(f, lambda k: callee_last(k) == 'new_data')
     c.need(len(nd) == 1 and isinstance(nd[0][0].ast, ast.Assign), 'expect_loop: idx = self.new_data(...) not found')
     nv = nd[0][0].ast.targets[0].id
-    nts = [t2 for t2 in f.cfg.nodes if t2.kind == 'test' and compare_parts(t2.ast) and is_name(compare_parts(t2.ast)[0], nv)
-           and isinstance(compare_parts(t2.ast)[1], (ast.Is, ast.IsNot)) and f.cfg.dominated_by(t2, {nd[0][0]})[0]]
-    if not nts:
-        truthy = [t2 for t2 in f.cfg.nodes if t2.kind == 'test' and norm(t2.ast) in (nv, 'not %s' % nv) and f.cfg.dominated_by(t2, {nd[0][0]})[0]]
-        c.need(truthy, 'expect_loop: test of the new_data() result not found')
-        c.bad(f, truthy[0].ast, 'the result of new_data() is tested for truthiness: a match of the first listed pattern (index 0) is ignored and the loop keeps reading',
-              witness=norm(truthy[0].ast), kind='path', tag='newdata-returned')
-    else:
-        c.need(len(nts) == 1, 'expect_loop: test of the new_data() result not found')
-        e2 = 'true' if isinstance(compare_parts(nts[0].ast)[1], ast.IsNot) else 'false'
-        nx2 = [s2 for s2, l2 in nts[0].succ if l2 == e2]
-        c.check(len(nx2) == 1 and nx2[0].kind == 'stmt' and isinstance(nx2[0].ast, ast.Return) and is_name(nx2[0].ast.value, nv), f, nts[0].ast,
-                'a match found in new data (index is not None, 0 included) is returned at once', kind='path', tag='newdata-returned')
+    match_returned_at_once(c, f, nd[0][0], nv, ('read_nonblocking', 'new_data', 'existing_data', 'timeout', 'sleep'),
+                           'a match found in new data (index is not None, 0 included) is returned at once', 'newdata-returned')
     # class relation
     ex = repo.modules['exceptions']
     for n in ('EOF', 'TIMEOUT'):
@@ -258,32 +266,14 @@ def check_existing_first(c, repo):
         c.need(len(ex) == 1 and isinstance(ex[0][0].ast, ast.Assign), '%s: idx = ...existing_data() not found' % q)
         en = ex[0][0]
         v = en.ast.targets[0].id
-        tests = find_test_nodes(f, lambda t: compare_parts(t) is not None and is_name(compare_parts(t)[0], v)
-                                and isinstance(compare_parts(t)[1], (ast.IsNot, ast.Is)) and isinstance(compare_parts(t)[2], ast.Constant)
-                                and compare_parts(t)[2].value is None)
-        tests = [t for t in tests if g.dominated_by(t, {en})[0] and
-                 not any(x.kind == 'stmt' and any(callee_last(k) in firsts for k in node_calls(x))
-                         for x in (g.path(en, t, skip_labels=('exc',)) or [])[1:-1])]
-        if not tests:
-            truthy = [t for t in g.nodes if t.kind == 'test' and norm(t.ast) in (v, 'not %s' % v) and g.dominated_by(t, {en})[0]]
-            if truthy:
-                c.bad(f, truthy[0].ast, 'the result of existing_data() is tested for truthiness: index 0 (the first listed pattern) counts as "no match"',
-                      witness=norm(truthy[0].ast), kind='path', tag='pending-wins')
-                continue
-        c.need(tests, '%s: test of the existing_data() result not found' % q)
-        t0 = min(tests, key=lambda t: t.id)
-        edge = 'true' if isinstance(compare_parts(t0.ast)[1], ast.IsNot) else 'false'
-        nxt = [s2 for s2, l2 in t0.succ if l2 == edge]
-        okr = len(nxt) == 1 and nxt[0].kind == 'stmt' and isinstance(nxt[0].ast, ast.Return) and is_name(nxt[0].ast.value, v)
-        c.check(okr, f, t0.ast, 'a match in the pending text (index is not None, 0 included) is returned immediately; only "no match" goes on to read',
-                witness='on the not-None edge the next statement is %s' % (norm(nxt[0].ast) if nxt and nxt[0].ast is not None else 'missing'), kind='path', tag='pending-wins')
+        match_returned_at_once(c, f, en, v, tuple(firsts) + ('read_nonblocking', 'new_data'),
+                               'a match in the pending text (index is not None, 0 included) is returned immediately; only "no match" goes on to read', 'pending-wins')
         for n, k in cfg_nodes_with_call(f, lambda k: callee_last(k) in firsts):
             if n is en or any(isinstance(p, ast.ExceptHandler) for p in parent_chain(k)):
                 continue     # handlers run only after something inside the try was attempted
             ok1, p1 = g.dominated_by(n, {en}, skip_labels=())
-            ok2, p2 = g.dominated_by(n, {t0}, skip_labels=())
-            c.check(ok1 and ok2, f, k, '%s() is reached only after existing_data() and the test of its result' % callee_last(k),
-                    witness='path: ' + g.describe_path(p1 or p2) if (p1 or p2) else None, tag='existing-first')
+            c.check(ok1, f, k, '%s() is reached only after existing_data() (and, by the rule above, only when it found nothing)' % callee_last(k),
+                    witness='path: ' + g.describe_path(p1) if p1 else None, tag='existing-first')
 
 
 def check_str_attrs(c, repo):
